@@ -17,6 +17,8 @@ type NumSpec[K any] struct {
 	Probes   []K
 	Bounds   []K
 	NVals    int
+	// SearchOnly keys are Search probes only (never inserted, never deleted).
+	SearchOnly []K
 }
 
 type numOps[K any] struct {
@@ -113,6 +115,12 @@ func NewNumUniverse[K any](kind, keyType string, mk func() art.Tree[K, int], sp 
 	}
 	for i := range keys {
 		u.Probes = append(u.Probes, i)
+	}
+	for _, k := range sp.SearchOnly {
+		n := len(keys)
+		if i := add(k); i >= n {
+			u.Probes = append(u.Probes, i)
+		}
 	}
 	bset := map[int]bool{}
 	addB := func(i int) {
@@ -303,5 +311,30 @@ func NumericRegistry(tier string) []UniverseDef {
 	nan32n := math.Float32frombits(0xffc00000)
 	f32b := []float32{float32(math.NaN()), nan32, float32(math.Inf(-1)), -1, float32(math.Copysign(0, -1)), 0, 1, float32(math.Inf(1)), math.SmallestNonzeroFloat32, -math.MaxFloat32, -math.SmallestNonzeroFloat32, math.MaxFloat32, nan32n}
 	out = append(out, floatDefs[float32]("float32", tier, f32b, []float32{1.5, 1.5000001, -1.5, -1.5000001, 2.5, 1e30, -1e30, 1.25}, func(b byte) float32 { return -math.Float32frombits(0x40100000 + uint32(b)) }, th)...)
+	return out
+}
+
+// NodeTableRegistry (C10, tree level): single-byte-key trees whose root is one pure
+// fan-out node, with all 256 byte values as Search probes in every state, so that the
+// lookups inlined into the generated Search are exercised like the bare node is.
+func NodeTableRegistry(tier string) []UniverseDef {
+	var out []UniverseDef
+	all := make([]uint8, 256)
+	for i := range all {
+		all[i] = uint8(i)
+	}
+	ops := intOps[uint8](func(k uint8) []byte { _, b := art.UnsignedBinaryKey[uint8]{}.Transform(k); return b })
+	mk := func() art.Tree[uint8, int] { return art.NewUnsignedBinaryTree[uint8, int]() }
+	for _, f := range fanWindows(tier) {
+		sp := numFromBytes(FanUniverse(f), func(b byte) uint8 { return b })
+		sp.Name = "TABLE-" + sp.Name
+		sp.SearchOnly = all
+		sp.Probes = nil
+		out = append(out, UniverseDef{Name: "unsigned[uint8]/" + sp.Name, Build: func() *Universe { return NewNumUniverse("unsigned", "uint8", mk, sp, ops) }})
+	}
+	for i, alpha := range [][]uint8{{0x00, 0x01, 0x7f, 0x80, 0x81, 0xfe, 0xff, 0x41}, {0xf8, 0xf9, 0xfa, 0xfb, 0xfc, 0xfd, 0xfe, 0xff}, {0x00, 0x01, 0x02, 0x03, 0x04, 0x05, 0x06, 0x07}} {
+		sp := NumSpec[uint8]{Name: fmt.Sprintf("TABLE-N4-16/alpha%d", i), Free: alpha, SearchOnly: all}
+		out = append(out, UniverseDef{Name: "unsigned[uint8]/" + sp.Name, Build: func() *Universe { return NewNumUniverse("unsigned", "uint8", mk, sp, ops) }})
+	}
 	return out
 }
